@@ -537,6 +537,14 @@ def write_evidence(pid, tier, seed, ctx, cfg, res, broken, violations, wall):
     else:
         cov["samples"] = [{"obligation": t} for t in thms[:5]] or [{"note": "no samples"}]
     cov.update(ctx.get("extra_coverage", {}))
+    # what the translator did on THIS run: files whose content changed, and T8 functions it could not follow (stubbed)
+    cov["regenerated_files_changed"] = ctx.get("gen_changed", [])
+    cov["t8_functions_outside_subset"] = ctx.get("t8_failures", [])
+    try:
+        drv = open(os.path.join(LEAN, "Secp", "Gen", "Drivers.lean")).read()
+        cov["t8_regenerated_definitions"] = len(re.findall(r"^def ", drv, re.M))
+    except Exception:
+        pass
     if cov["discharged"] < 1:
         # nothing was discharged in this run: do not present proof-style counts at all
         cov.pop("obligations"); cov.pop("discharged")
